@@ -552,7 +552,21 @@ func (o *Ops) Read(req *go9p.SrvReq) {
 			req.RespondError(&go9p.Error{Err: "script: absurd read count", Errornum: go9p.EINVAL})
 			return
 		}
-		req.RespondRread(Pattern(tc.Tag, ft, tc.Offset, n))
+		data := Pattern(tc.Tag, ft, tc.Offset, n)
+		if tc.Offset%2 == 1 && !p.Twice && !p.TwiceFull && p.ThenError == "" {
+			// the other way the library documents for answering a read: have the reply set up, fill its data in place,
+			// say how much there is, respond (reads at odd offsets are answered like this, as long as the plan gives
+			// one answer only: after Respond the buffer is no longer the implementation's to write into)
+			if err := go9p.InitRread(req.Rc, uint32(len(data))); err != nil {
+				req.RespondError(err)
+				return
+			}
+			copy(req.Rc.Data, data)
+			go9p.SetRreadCount(req.Rc, uint32(len(data)))
+			req.Respond()
+			return
+		}
+		req.RespondRread(data)
 	})
 }
 
